@@ -152,6 +152,9 @@ func c12Stream(kind string, replay bool, evs []mercure.Event) (string, any, erro
 		}
 		if e.Retry != 0 {
 			form.Set("retry", fmt.Sprint(e.Retry))
+			if len(recs)%2 == 1 || len(e.Data)%2 == 1 {
+				form.Set("retry", "00"+fmt.Sprint(e.Retry)) // decimal with leading zeros: the same number
+			}
 		}
 		code, body := hx.Post(env.Hub, form, hdr)
 		recs = append(recs, pubrec{e, code, body})
